@@ -39,6 +39,7 @@ type FnInfo struct {
 	nnMemo   map[nnKey]int
 	phiRet   map[*ssa.BasicBlock]bool // return blocks whose operands include a phi of the same block
 	phiIdx   map[*ssa.Phi]int         // tracked nil-able phis
+	loadIdx  map[string]int           // tracked immutable field paths that are nil-tested repeatedly
 	// ignoreTail: exits that forward the result of one of these calls are not
 	// counted as success exits by successWitness (the callee discharges the
 	// obligation under analysis).
@@ -425,6 +426,30 @@ func (fi *FnInfo) transfer(b *ssa.BasicBlock, m uint64) []uint64 {
 				outs[j] = infeasibleMask
 			}
 		}
+		// correlated nil checks on the same immutable field path
+		fi.trackPhis()
+		if d, ok := nilTestedPath(iff.Cond); ok {
+			if idx, tracked := fi.loadIdx[d]; tracked {
+				sh := uint(48 + 2*idx)
+				k := (m >> sh) & 3
+				for j := 0; j < 2; j++ {
+					if outs[j] == infeasibleMask {
+						continue
+					}
+					isNil := condSaysNil(iff.Cond, j == 0)
+					if (k == 1 && !isNil) || (k == 2 && isNil) {
+						outs[j] = infeasibleMask
+						continue
+					}
+					outs[j] &^= 3 << sh
+					if isNil {
+						outs[j] |= 1 << sh
+					} else {
+						outs[j] |= 2 << sh
+					}
+				}
+			}
+		}
 	}
 	for j, t := range b.Succs {
 		if outs[j] != infeasibleMask {
@@ -442,6 +467,8 @@ func (fi *FnInfo) trackPhis() {
 		return
 	}
 	fi.phiIdx = map[*ssa.Phi]int{}
+	fi.loadIdx = map[string]int{}
+	fi.trackLoads()
 	for _, b := range fi.Fn.Blocks {
 		for _, in := range b.Instrs {
 			p, ok := in.(*ssa.Phi)
@@ -459,11 +486,84 @@ func (fi *FnInfo) trackPhis() {
 					hasNil = true
 				}
 			}
-			if hasNil && len(fi.phiIdx) < 16 {
+			if hasNil && len(fi.phiIdx) < 8 {
 				fi.phiIdx[p] = len(fi.phiIdx)
 			}
 		}
 	}
+}
+
+// trackLoads: immutable field paths of parameters that are nil-tested more
+// than once (correlated nil checks). A path is tracked only if the function
+// never stores to a field of that name (so two loads yield the same value).
+func (fi *FnInfo) trackLoads() {
+	count := map[string]int{}
+	stored := map[string]bool{}
+	for _, b := range fi.Fn.Blocks {
+		for _, in := range b.Instrs {
+			if st, ok := in.(*ssa.Store); ok {
+				if fa, ok := st.Addr.(*ssa.FieldAddr); ok {
+					stored[fieldName(fa.X.Type(), fa.Field)] = true
+				}
+			}
+		}
+		iff, ok := blockTerm(b).(*ssa.If)
+		if !ok {
+			continue
+		}
+		if d, ok := nilTestedPath(iff.Cond); ok {
+			count[d]++
+		}
+	}
+	var ds []string
+	for d, n := range count {
+		if n >= 2 {
+			ds = append(ds, d)
+		}
+	}
+	sort.Strings(ds)
+	for _, d := range ds {
+		last := d[strings.LastIndex(d, ".")+1:]
+		if stored[last] || len(fi.loadIdx) >= 8 {
+			continue
+		}
+		fi.loadIdx[d] = len(fi.loadIdx)
+	}
+}
+
+// nilTestedPath: cond is (possibly negated) `<param field path> ==/!= nil`.
+func nilTestedPath(cond ssa.Value) (string, bool) {
+	for {
+		u, ok := cond.(*ssa.UnOp)
+		if !ok || u.Op != token.NOT {
+			break
+		}
+		cond = u.X
+	}
+	bo, ok := cond.(*ssa.BinOp)
+	if !ok || (bo.Op != token.EQL && bo.Op != token.NEQ) {
+		return "", false
+	}
+	var o ssa.Value
+	if isNilConst(bo.Y) {
+		o = bo.X
+	} else if isNilConst(bo.X) {
+		o = bo.Y
+	} else {
+		return "", false
+	}
+	u, ok := o.(*ssa.UnOp)
+	if !ok || u.Op != token.MUL {
+		return "", false
+	}
+	if _, ok := u.X.(*ssa.FieldAddr); !ok {
+		return "", false
+	}
+	d := desc(o)
+	if !strings.HasPrefix(d, "param:") || strings.ContainsAny(d, "([") {
+		return "", false
+	}
+	return d, true
 }
 
 // enter updates the knowledge about the tracked phis of block t when it is
@@ -506,6 +606,20 @@ func (fi *FnInfo) enter(t, from *ssa.BasicBlock, m uint64) uint64 {
 		}
 	}
 	return m
+}
+
+// condSaysNil: cond evaluating to truth means the tested value is nil.
+func condSaysNil(cond ssa.Value, truth bool) bool {
+	for {
+		u, ok := cond.(*ssa.UnOp)
+		if !ok || u.Op != token.NOT {
+			break
+		}
+		truth = !truth
+		cond = u.X
+	}
+	bo := cond.(*ssa.BinOp)
+	return (bo.Op == token.EQL) == truth
 }
 
 // infeasible: cond == truth contradicts what the mask knows about a tracked phi.
